@@ -382,7 +382,9 @@ class Profile(HookHost):
 
         vline = LineString(coords)
 
-        tolerance = 1e-12
+        # includes a chord lying on the boundary; relative to the size of the section, so that it neither depends on the
+        # unit of length nor drops below the resolution of the coordinates of large sections
+        tolerance = 1e-12 * (self.width + self.height)
 
         intersection = vline.intersection(self.cross_section.buffer(tolerance))
 
@@ -393,7 +395,9 @@ class Profile(HookHost):
 
         hline = LineString(coords)
 
-        tolerance = 1e-12
+        # includes a chord lying on the boundary; relative to the size of the section, so that it neither depends on the
+        # unit of length nor drops below the resolution of the coordinates of large sections
+        tolerance = 1e-12 * (self.width + self.height)
 
         intersection = hline.intersection(self.cross_section.buffer(tolerance))
 
